@@ -209,6 +209,10 @@ def mulc(a, k):
 
 
 def mul(a, b):
+    # (x,) * 2 is (x, x)
+    for s, k in ((a, b), (b, a)):
+        if s[0] in ('tuple', 'list') and is_int_const(k) and 0 <= k[1] <= 4 and not any(e[0] == 'star' for e in s[1]):
+            return (s[0], tuple(s[1]) * k[1])
     if _stringy(a) or _stringy(b):
         return ('bin', '*', a, b)
     if is_int_const(a):
@@ -491,10 +495,15 @@ def slice_(lo, hi, step=NONE):
     return ('slice', lo, hi, step)
 
 
+def _cat(xs):
+    """Concatenation; a one-element list literal contributes its element ([0] and 0 give the same array)."""
+    return ('cat', tuple((x[1][0] if x[0] in ('list', 'tuple') and len(x[1]) == 1 and x[1][0][0] != 'star' else x) for x in xs))
+
+
 def sub(base, index):
     if base == G('np.r_'):
         xs = index[1] if index[0] == 'tuple' else (index,)
-        return ('cat', tuple(xs))
+        return _cat(tuple(xs))
     # projection out of literal tuples/lists by constant index
     if base[0] in ('tuple', 'list') and is_int_const(index):
         i = index[1]
@@ -577,7 +586,14 @@ def call(f, args=(), kws=()):
     if f == G('np.concatenate') and len(args) == 1 and args[0][0] in ('list', 'tuple'):
         rest = [kw for kw in kws if not (kw[0] == 'kw' and kw[1] == 'axis' and kw[2] == C(0))]
         if not rest:
-            return ('cat', args[0][1])
+            return _cat(args[0][1])
+    # np.append(a, b) concatenates
+    if f == G('np.append') and nokw and len(args) == 2:
+        return _cat((args[0], args[1]))
+    # x.extend([e]) is x.append(e)
+    if f[0] == 'attr' and f[2] == 'extend' and nokw and len(args) == 1 and args[0][0] == 'list' and len(args[0][1]) == 1 \
+            and args[0][1][0][0] != 'star':
+        return ('call', ('attr', f[1], 'append'), (args[0][1][0],), ())
     # zip(e[:-1], e[1:])
     if f == G('zip') and nokw and len(args) == 2:
         a, b = args
